@@ -45,6 +45,19 @@ Definition forward_full : Prop :=
    swt_program) *)
 Definition spec_soundness_full : Prop := C02.soundness_modulo_overflow_full swt_program.
 
+(* the other partial theorems without their guards; each is refuted below by the guard's witness *)
+Definition binop_spec_to_static_full : Prop :=
+  forall op a b s, Sp.op_type (binop_of op) a b = Some s -> bin_ok op (ty_of a) (ty_of b) (ty_of s) = true.
+Definition range_table_full : Prop :=
+  forall a, a <> S.SNum ->
+  option_map ty_of
+    (match Sp.spec_check S.CRange (S.EVar a) with Sp.SAccept st _ => Some st | Sp.SReject => None end)
+  = range_var_ty (ty_of a).
+Definition converse_full : Prop :=
+  forall F G A e k s, erase G A = Some e -> Sp.spec_tc e = Some (k, s) -> ety F G A = Some (ty_of s).
+Definition impl_spec_agree_full : Prop :=
+  forall e n, T.tc e = T.ONode n false -> exists k, Sp.spec_tc e = Some (k, TP.erase (T.node_type n)).
+
 (* ---------- the rule tables ---------- *)
 Theorem C02_types_binop_static_to_spec : forall op a b t,
   bin_ty op (ty_of a) (ty_of b) = Some t ->
@@ -68,6 +81,12 @@ Theorem C02_types_binop_guard_needed :
   Sp.op_type S.OpPlus a b = Some a /\ bin_ok BPlus (ty_of a) (ty_of b) (ty_of a) = false.
 Proof. exact bin_guard_needed. Qed.
 Print Assumptions C02_types_binop_guard_needed.
+
+Theorem C02_types_binop_spec_to_static_full_refuted : ~ binop_spec_to_static_full.
+Proof.
+  intros H. destruct bin_guard_needed as [H1 H2]. rewrite (H BPlus _ _ _ H1) in H2. discriminate.
+Qed.
+Print Assumptions C02_types_binop_spec_to_static_full_refuted.
 
 Theorem C02_types_equality_operands : forall a b,
   ty_compat (ty_of a) (ty_of b) = true <-> Sp.unify a b <> None.
@@ -111,6 +130,12 @@ Theorem C02_types_range_guard_needed :
 Proof. exact range_guard_needed. Qed.
 Print Assumptions C02_types_range_guard_needed.
 
+Theorem C02_types_range_table_full_refuted : ~ range_table_full.
+Proof.
+  intros H. specialize (H (S.SArr S.SEmptyArr) ltac:(discriminate)). vm_compute in H. discriminate.
+Qed.
+Print Assumptions C02_types_range_table_full_refuted.
+
 (* ---------- expressions ---------- *)
 (* forward, on coercion-free trees *)
 Theorem C02_types_forward_partial : forall F G A t,
@@ -134,6 +159,14 @@ Theorem C02_types_converse_partial : forall F G A,
   forall e k s, erase G A = Some e -> Sp.spec_tc e = Some (k, s) -> ety F G A = Some (ty_of s).
 Proof. exact (fun F G A => proj1 (spec_to_static F G A)). Qed.
 Print Assumptions C02_types_converse_partial.
+
+(* without [ann_ok] it is false, trivially: a tree with a wrong annotation ( 1 + 1  annotated string) *)
+Theorem C02_types_converse_full_refuted : ~ converse_full.
+Proof.
+  intros H.
+  specialize (H [] [[]] (EBin BPlus TStr C02.n1 C02.n1) _ _ _ eq_refl eq_refl). vm_compute in H. discriminate.
+Qed.
+Print Assumptions C02_types_converse_full_refuted.
 
 (* an argument against a parameter: exact type, any (wrapped), generic array / map *)
 Theorem C02_types_argument_partial : forall F G p a,
@@ -270,6 +303,13 @@ Theorem C02_types_impl_guard_needed :
   (exists n, T.tc e = T.ONode n false /\ T.node_type n = T.TBool) /\ Sp.spec_tc e = None.
 Proof. exact TW.not_empty_base_needed. Qed.
 Print Assumptions C02_types_impl_guard_needed.
+
+Theorem C02_types_impl_spec_agree_full_refuted : ~ impl_spec_agree_full.
+Proof.
+  intros H. destruct TW.not_empty_base_needed as [[n [Hn _]] Hs].
+  destruct (H _ n Hn) as (k & Hk). rewrite Hs in Hk. discriminate.
+Qed.
+Print Assumptions C02_types_impl_spec_agree_full_refuted.
 
 (* forward: Static-typed, coercion-free, uniform erasure => the implementation model types the
    erased expression without error, with the same type *)
